@@ -40,7 +40,7 @@ Definition wf_prog (p : prog) : bool := forallb wf_chunk (entries_of p).
 
 (* ---- comparison (B) inside Coq, on the IMPLEMENTATION's recorded result *)
 Definition spec_hist_val (i : prog * list (list N)) : val :=
-  VL (map (fun pre => VL (map (fun p => enc_set (apply_history (entries_of (fst i)) p pre)) pkgs)) (snd i)).
+  vz (flat_map (fun pre => map (fun p => bits (apply_history (entries_of (fst i)) p pre)) pkgs) (snd i)).
 Definition spec_hist_ok (i : prog * list (list N)) (res : val) : bool :=
   match res with
   | VErr _ => true     (* refused (frozen / optimize-then-mutate): classified by the harness *)
@@ -80,10 +80,10 @@ Definition dec_otoks (v : val) : option (list otok) :=
   | VL l =>
       fold_right (fun e acc =>
         match acc, e with
-        | Some a, VL [VZ 0%Z; VZ f] => Some (OPos (Z.to_N f) :: a)
-        | Some a, VL [VZ 1%Z; VZ f] => Some (ONeg (Z.to_N f) :: a)
-        | Some a, VL [VZ 2%Z] => Some (OStar :: a)
-        | Some a, VL [VZ 3%Z; VZ p] => Some (ONegPre (Z.to_N p) :: a)
+        | Some a, VZ z =>
+            let n := Z.to_N z in
+            Some ((if n <? 1000 then OPos n else if n <? 2000 then ONeg (n - 1000)
+                   else if n =? 2000 then OStar else ONegPre (n - 3000)) :: a)
         | _, _ => None
         end) (Some []) l
   | _ => None
